@@ -10,6 +10,7 @@ operator-less token.
 import functools
 from fractions import Fraction
 
+from vcheck import argtypes
 from vcheck import core
 from vcheck import hypmemo
 from vcheck.core import Task, Violation
@@ -19,6 +20,8 @@ LEVEL = 'exploration'
 BUDGET = {'quick': 45, 'thorough': 420}
 # deterministic sub-checks repeated in a `python -O` child (core.optimized_child)
 OPT_SUBS = ('numeric/table', 'string/table', 'in/table', 'all-in/table', 'range-in/table')
+# sub-checks repeated with str / int arguments as subclass instances
+SUBCLASS_SUBS = ('numeric/table#2', 'string/table#2', 'in/table', 'all-in/table', 'range-in/table')
 # documented call interface the generated calls rely on (vcheck/callstyle.py)
 INTERFACE = [('oslo_utils.specs_matcher', None)]
 RULE = ('specs are built from (operator, operands, blank layout): the 7 '
@@ -144,7 +147,7 @@ def check(sm, case, sub):
     spec = render(case)
     want = expected(case)
     try:
-        got = sm.match(case['value'], spec)
+        got = sm.match(argtypes.maybe(case['value']), argtypes.maybe(spec))
     except Exception as e:
         raise Violation(sub, 'match(%r, %r) raised %s: %s, expected %r'
                         % (case['value'], spec, type(e).__name__, e, want),
